@@ -25,6 +25,7 @@ type MetricParams struct {
 
 type ScrapeRaceParams struct {
 	Against string `json:"against"` // close | rebalance | open
+	Inject  bool   `json:"inject"`  // start the scrape at every scheduling point of the operation (crash-point style)
 }
 
 type sample struct {
@@ -81,7 +82,7 @@ func init() {
 	scenarios["c16_race"] = func(raw json.RawMessage) *vrt.Scenario {
 		var p ScrapeRaceParams
 		_ = json.Unmarshal(raw, &p)
-		return &vrt.Scenario{Name: "c16_race", Main: func() { scrapeRaceMain(p) }, MaxSteps: 400000, NoTimerAlt: true}
+		return &vrt.Scenario{Name: "c16_race", Main: func() { scrapeRaceMain(p) }, MaxSteps: 400000, NoTimerAlt: true, FreeChoices: p.Inject}
 	}
 	register(&Property{
 		ID:        "C16",
@@ -98,6 +99,9 @@ func init() {
 				{Scenario: "c16_race", Params: mustJSON(ScrapeRaceParams{Against: "close"}), Bound: b, Shards: 4},
 				{Scenario: "c16_race", Params: mustJSON(ScrapeRaceParams{Against: "rebalance"}), Bound: b, Shards: 4},
 				{Scenario: "c16_race", Params: mustJSON(ScrapeRaceParams{Against: "open"}), Bound: b, Shards: 4},
+				{Scenario: "c16_race", Params: mustJSON(ScrapeRaceParams{Against: "close", Inject: true}), Bound: 1, Shards: 8, Note: "scrape injected at every scheduling point of Close, plus one further deviation"},
+				{Scenario: "c16_race", Params: mustJSON(ScrapeRaceParams{Against: "rebalance", Inject: true}), Bound: 1, Shards: 8},
+				{Scenario: "c16_race", Params: mustJSON(ScrapeRaceParams{Against: "open", Inject: true}), Bound: 1, Shards: 8},
 			}
 		},
 	})
@@ -316,10 +320,18 @@ func scrapeRaceMain(p ScrapeRaceParams) {
 			e.Stream.Open()
 		}
 	})
-	vrt.GoNamed("scraper", func() {
-		defer wg.Done()
-		got, serr = scrape(e)
-	})
+	if p.Inject {
+		k := vrt.Choose(200, true, "inject-at-point")
+		vrt.InjectAt("actor", k, func() {
+			defer wg.Done()
+			got, serr = scrape(e)
+		})
+	} else {
+		vrt.GoNamed("scraper", func() {
+			defer wg.Done()
+			got, serr = scrape(e)
+		})
+	}
 	wg.Wait()
 	vrt.Window(false)
 	if serr != nil {
